@@ -28,10 +28,14 @@ class _Anti:
         self.y = y
 
     def __call__(self, tm):
-        from .npatch import real
+        from .npatch import real, to_float, _all_concrete
         y = numpy.asarray(self.y)
-        if y.dtype != object:
-            return real("UnivariateSpline")(self.t, y, s=0).antiderivative()(tm)
+        t = numpy.asarray(self.t)
+        if (y.dtype != object or _all_concrete(y)) and (t.dtype != object or _all_concrete(t)):
+            from .npatch import unpatched
+            with unpatched():
+                return real("UnivariateSpline")(to_float(t), to_float(y), s=0).antiderivative()(
+                    to_float(numpy.asarray(tm)))
         n = len(y)
         kt = _key(self.t)
         assert _key(tm) == kt, "spline stub: evaluation points must be the knots"
@@ -57,16 +61,28 @@ class UnivariateSplineStub:
         self._concrete = None
         ya = numpy.asarray(y)
         xa = numpy.asarray(x)
-        if ya.dtype != object and xa.dtype != object:
-            from .npatch import real
-            self._concrete = real("UnivariateSpline")(x, y, w=w, bbox=bbox, k=k, s=s, ext=ext)
+        from .npatch import real, to_float, _all_concrete
+        if (ya.dtype != object or _all_concrete(ya)) and (xa.dtype != object or _all_concrete(xa)):
+            from .npatch import unpatched
+            with unpatched():
+                self._concrete = real("UnivariateSpline")(to_float(xa), to_float(ya), w=w, bbox=bbox,
+                                                          k=k, s=s, ext=ext)
 
     def antiderivative(self, n=1):
         if self._concrete is not None:
-            return self._concrete.antiderivative(n)
+            from .npatch import unpatched, to_float
+            with unpatched():
+                anti = self._concrete.antiderivative(n)
+
+            def call(tm):
+                with unpatched():
+                    return anti(to_float(numpy.asarray(tm)))
+            return call
         return _Anti(self.x, self.y)
 
     def __call__(self, *a, **kw):
         if self._concrete is not None:
-            return self._concrete(*a, **kw)
+            from .npatch import unpatched
+            with unpatched():
+                return self._concrete(*a, **kw)
         raise core.SymbolicConcretization("spline evaluation of symbolic data")
